@@ -7,6 +7,7 @@ import SparseV.Model.Elemwise
 import SparseV.Lemmas.Assoc
 import SparseV.Lemmas.Index
 import SparseV.Lemmas.Canonical
+import SparseV.Lemmas.Gen.Bcast
 namespace SparseV
 
 /-! ## extents counted from the right -/
@@ -60,11 +61,11 @@ theorem ext_reverse_map_range (n : Nat) (g : Nat → Nat) (k : Nat) :
 
 theorem bcastOk_nat (a b : Nat) (r : Bool) :
     Gen.bcastOk (a : Int) (b : Int) r = true ↔ (a = b ∨ a = 1 ∨ (b = 1 ∧ r = false)) := by
-  simp only [Gen.bcastOk, decide_eq_true_eq]
+  rw [Gen.bcastOk_iff]
   cases r <;> simp <;> omega
 
 theorem bcastDim_nat (a b : Nat) : (Gen.bcastDim (a : Int) (b : Int)).toNat = if a = 1 then b else a := by
-  simp only [Gen.bcastDim]
+  simp only [Gen.bcastDim_eq, Ref.bcastDim]
   by_cases h : a = 1
   · subst h; simp
   · have : (a : Int) ≠ 1 := by omega
